@@ -208,6 +208,7 @@ fn norm_quoted(p: &str) -> String {
 struct Layout {
     expected: Vec<String>,
     mirror: BTreeMap<String, String>,
+    excluded: BTreeSet<String>,
 }
 
 fn layout(scn: &C11Scenario, entries: &[FsEntry]) -> Layout {
@@ -215,7 +216,26 @@ fn layout(scn: &C11Scenario, entries: &[FsEntry]) -> Layout {
     let input_is_file = entries
         .iter()
         .any(|e| e.path == input_norm && e.body != Body::Dir);
-    let expected = gen::expected_sources(entries, &scn.opts.input, input_is_file);
+    let config_text: Option<String> = match &scn.opts.config {
+        crate::model::ConfigSource::Object(text) => Some(text.clone()),
+        _ => config_path_of(&scn.opts, entries).and_then(|p| {
+            entries.iter().find(|e| e.path == p).and_then(|e| match &e.body {
+                Body::Text(t) => Some(t.clone()),
+                _ => None,
+            })
+        }),
+    };
+    let expected: Vec<String> = gen::expected_sources(entries, &scn.opts.input, input_is_file);
+    // sources excluded by the top-level filters are read and parsed (so they can fail) but
+    // otherwise skipped entirely: nothing is written for them
+    let excluded: BTreeSet<String> = expected
+        .iter()
+        .filter(|p| match &config_text {
+            Some(text) => !gen::config_selects(text, p),
+            None => false,
+        })
+        .cloned()
+        .collect();
     let (out_is_dir, out_is_file) = match &scn.opts.output {
         Some(output) => {
             let o = gen::normalize(output);
@@ -241,7 +261,11 @@ fn layout(scn: &C11Scenario, entries: &[FsEntry]) -> Layout {
             )),
         );
     }
-    Layout { expected, mirror }
+    Layout {
+        expected,
+        mirror,
+        excluded,
+    }
 }
 
 /// Attribute an error text to an expected source: the first quoted path is the item's
@@ -444,7 +468,12 @@ pub fn check(scn: &C11Scenario, stats: &mut RunStats) -> Result<Vec<Violation>, 
     }
 
     // --- reference: the bad files are absent, no injected faults, canonical order
-    let bad_files = all_bad_files(scn);
+    let direct_bad = all_bad_files(scn);
+    let bad_files = if scn.keep_bad_in_reference {
+        Vec::new()
+    } else {
+        direct_bad.clone()
+    };
     // ... and no stale outputs: files that already sit at a destination are dropped, so
     // the reference also shows what a run into a clean location writes
     let stale: Vec<&String> = if with_output {
@@ -545,17 +574,26 @@ pub fn check(scn: &C11Scenario, stats: &mut RunStats) -> Result<Vec<Violation>, 
     // --- the faulty set F
     let ref_lay = layout(&ref_scn, &ref_entries);
     let mut faulty: BTreeSet<String> = BTreeSet::new();
-    for bad in &bad_files {
+    for bad in &direct_bad {
         if lay.expected.contains(bad) {
             faulty.insert(bad.clone());
         }
     }
     for u in unwritable_sources(scn, &lay) {
-        faulty.insert(u);
+        // nothing is ever written for a source the top-level filters exclude
+        if !lay.excluded.contains(&u) {
+            faulty.insert(u);
+        }
     }
     for text in &ref_errors {
-        for s in attribute(text, &ref_lay) {
-            faulty.insert(s);
+        let candidates = attribute(text, &ref_lay);
+        let ambiguous = candidates.len() > 1;
+        for s in candidates {
+            // an error naming a directory concerns the files written below it, never a
+            // file the top-level filters exclude
+            if !(ambiguous && ref_lay.excluded.contains(&s)) {
+                faulty.insert(s);
+            }
         }
     }
     let mut may_fail: BTreeSet<String> = faulty.clone();
@@ -600,6 +638,10 @@ pub fn check(scn: &C11Scenario, stats: &mut RunStats) -> Result<Vec<Violation>, 
                 .or_default()
                 .push(text.clone());
         } else {
+            let sources: Vec<String> = sources
+                .into_iter()
+                .filter(|s| !lay.excluded.contains(s))
+                .collect();
             ambiguous.push((text.clone(), sources));
         }
     }
@@ -607,6 +649,15 @@ pub fn check(scn: &C11Scenario, stats: &mut RunStats) -> Result<Vec<Violation>, 
     // sources below it: give each such error to a candidate that has none yet, faulty
     // candidates first
     for (text, sources) in ambiguous {
+        if sources.is_empty() {
+            violations.push(Violation::new(
+                P,
+                "report",
+                "unattributable-error",
+                format!("error does not name a processed file: {:?}", text),
+            ));
+            continue;
+        }
         let target = sources
             .iter()
             .find(|s| may_fail.contains(*s) && !reported.contains_key(*s))
@@ -695,7 +746,7 @@ pub fn check(scn: &C11Scenario, stats: &mut RunStats) -> Result<Vec<Violation>, 
     let healthy: Vec<&String> = lay
         .expected
         .iter()
-        .filter(|s| !effective.contains(*s))
+        .filter(|s| !effective.contains(*s) && !lay.excluded.contains(*s))
         .collect();
     stats.healthy_ratio_num += healthy.len() as u64;
     stats.healthy_ratio_den += lay.expected.len() as u64;
@@ -1024,16 +1075,45 @@ pub fn generate(seed: u64) -> C11Scenario {
     };
     let mut project = gen::gen_project(&mut rp, &knobs);
     if minify {
+        project.convert = false;
         project.bundle = None;
         for s in project.sources.iter_mut() {
             s.requires.clear();
         }
         project.data.clear();
     }
-    let parts = gen::gen_config_parts(&mut rc, project.bundle.as_deref());
+    let mut parts = gen::gen_config_parts(&mut rc, project.bundle.as_deref());
+    if project.convert {
+        parts.convert_sourcemap = Some("sourcemap.json".to_owned());
+    }
+    if !minify && rc.chance(1, 5) {
+        // top-level filters: files they exclude are skipped entirely (no output)
+        let n = rc.range(0, 2);
+        for _ in 0..n {
+            parts.apply_to_files.push((*rc.pick(gen::FILTER_PATTERNS)).to_owned());
+        }
+        if n == 0 || rc.chance(1, 3) {
+            parts.skip_files.push((*rc.pick(gen::FILTER_PATTERNS)).to_owned());
+        }
+    }
     let config_text = parts.to_text();
     let mut invocation =
         gen::gen_invocation(&mut rk, &project, &config_text, true, !real, backend);
+    if project.convert {
+        // the sourcemap sits next to the configuration file
+        let config_path = invocation
+            .extra_entries
+            .iter()
+            .find(|e| matches!(&e.body, Body::Text(t) if *t == config_text))
+            .map(|e| e.path.clone())
+            .unwrap_or_else(|| ".darklua.json".to_owned());
+        let sourcemap_path = gen::join(gen::parent(&config_path), "sourcemap.json");
+        let paths: Vec<String> = project.sources.iter().map(|s| s.path.clone()).collect();
+        invocation.extra_entries.push(FsEntry {
+            path: sourcemap_path.clone(),
+            body: Body::Text(gen::render_sourcemap(&paths, &sourcemap_path, "Project")),
+        });
+    }
     if minify {
         let span = *rk.pick(&[80usize, 20, 1, 120]);
         invocation.opts.config = crate::model::ConfigSource::Object(format!(
@@ -1284,6 +1364,7 @@ pub fn generate(seed: u64) -> C11Scenario {
         hash_seed: ro.next_u64(),
         alt_walk_seed: ro.next_u64(),
         alt_hash_seed: ro.next_u64(),
+        keep_bad_in_reference: project.convert,
     };
     // extra entries that do not depend on the layout first (they define the layout)
     for e in extra.iter().filter(|e| !e.path.starts_with('@')) {
@@ -1582,6 +1663,9 @@ impl Property for C11 {
             "healthy_projects_failing_in_reference".to_owned(),
             stats.unexpected_reference_errors,
         );
+        if scn.keep_bad_in_reference {
+            counters.insert("convert_require_projects".to_owned(), 1);
+        }
         if let Some(mode) = scn
             .entries
             .iter()
